@@ -34,6 +34,10 @@ func checkC05(c *Ctx) {
 	c.Rule("C05-R5", "ChannelEvents closes its channel on every exit (deferred close in the entry block)")
 	c.Rule("C05-R6", "an input chunk queued for the parser goroutine owns its backing array (allocated per chunk): queued input cannot be overwritten by a later read")
 	c.Rule("C05-R7", "ChannelEvents holds at most one event: after receiving from the event queue it sends that event on the caller's channel (or returns) before it can receive again")
+	c.Rule("C05-R9", "the escape timer is re-armed only after Stop, and a Stop that reports 'already fired' drains the tick: a stale tick would be taken for a fresh timeout and flush a half-received sequence held back behind a full queue")
+	c.Expect("C05-R9", 2)
+	c.Rule("C05-R10", "Fini always closes the quit channel: the close is unconditional in the function Fini runs once")
+	c.Expect("C05-R10", 1)
 	c.Rule("C05-R8", "no producer of events looks at the fill level of an event queue (len/cap) to decide whether to deliver: that is dropping by another name")
 	c.Expect("C05-R6", 1)
 	c.Expect("C05-R8", 1)
@@ -65,6 +69,8 @@ func checkC05(c *Ctx) {
 		c05Pipeline(c, p)
 		c05Channel(c, p)
 		checkChunkOwnership(c, p, "C05-R6")
+		checkTimerDiscipline(c, p, "C05-R9")
+		checkQuitAlwaysClosed(c, p, "C05-R10")
 	}
 }
 
@@ -630,4 +636,118 @@ func c05FillLevel(c *Ctx, p *Prog) {
 		})
 	}
 	c.Check(bad == "", "C05-R8", "event-queue:fill-level-not-consulted", "-", fmt.Sprintf("%d len/cap uses on event queues, all in HasPendingEvent %s", n, bad))
+}
+
+// checkTimerDiscipline: go.mod declares go 1.12, so timers have a buffered
+// channel that keeps a tick across Stop.  Reset on a timer whose tick was not
+// drained delivers that old tick as if the new period had elapsed.
+func checkTimerDiscipline(c *Ctx, p *Prog, rule string) {
+	n := 0
+	for _, fn := range p.modFns {
+		if fn.Pkg != p.Tcell {
+			continue
+		}
+		var stops []*ssa.Call
+		eachInstr(fn, func(in ssa.Instruction) {
+			if call, ok := in.(*ssa.Call); ok && calleeName(&call.Call) == "(*time.Timer).Stop" {
+				stops = append(stops, call)
+			}
+		})
+		eachInstr(fn, func(in ssa.Instruction) {
+			call, ok := in.(*ssa.Call)
+			if !ok || calleeName(&call.Call) != "(*time.Timer).Reset" {
+				return
+			}
+			n++
+			tm := valName(call.Call.Args[0])
+			key := fmt.Sprintf("%s:timer-reset#%d", fn.Name(), n)
+			ok2, detail := false, "no Stop of the same timer dominates the Reset"
+			for _, st := range stops {
+				if valName(st.Call.Args[0]) != tm || !instrDominates(st, call) {
+					continue
+				}
+				// the false result of Stop must lead to a receive on the timer's channel
+				drained := false
+				for _, r := range referrers(st) {
+					var iff *ssa.If
+					neg := false
+					switch x := r.(type) {
+					case *ssa.If:
+						iff = x
+					case *ssa.UnOp:
+						if x.Op == token.NOT {
+							for _, r2 := range referrers(x) {
+								if i2, ok := r2.(*ssa.If); ok {
+									iff, neg = i2, true
+								}
+							}
+						}
+					}
+					if iff == nil {
+						continue
+					}
+					falseSucc := iff.Block().Succs[1]
+					if neg {
+						falseSucc = iff.Block().Succs[0]
+					}
+					for _, in2 := range falseSucc.Instrs {
+						switch y := in2.(type) {
+						case *ssa.Select:
+							for _, s := range y.States {
+								if s.Dir == types.RecvOnly && strings.HasSuffix(valName(s.Chan), ".C") {
+									drained = true
+								}
+							}
+						case *ssa.UnOp:
+							if y.Op == token.ARROW && strings.HasSuffix(valName(y.X), ".C") {
+								drained = true
+							}
+						}
+					}
+				}
+				if drained {
+					ok2, detail = true, "Stop at "+p.pos(st.Pos())+", its 'already fired' answer drains the channel"
+				} else {
+					detail = "Stop at " + p.pos(st.Pos()) + " ignores its result: a tick that already fired stays in the channel"
+				}
+			}
+			c.Check(ok2, rule, key, p.pos(call.Pos()), detail)
+		})
+	}
+	if n == 0 {
+		c.Undecided(rule, "timer-reset", "-", "no Timer.Reset found (the escape timeout was expected)")
+	}
+}
+
+// checkQuitAlwaysClosed: PollEvent returning nil and ChannelEvents closing its
+// channel hang on the quit channel; whatever state the screen is in (suspended
+// or running), Fini must close it.
+func checkQuitAlwaysClosed(c *Ctx, p *Prog, rule string) {
+	var site *ssa.Call
+	var host *ssa.Function
+	for _, g := range p.modFns {
+		if g.Pkg != p.Tcell {
+			continue
+		}
+		eachInstr(g, func(in ssa.Instruction) {
+			if cl, ok := in.(*ssa.Call); ok {
+				if b, ok := cl.Call.Value.(*ssa.Builtin); ok && b.Name() == "close" {
+					if chanName(cl.Call.Args[0], nil, 0) == "tcell.tScreen.quit" {
+						site, host = cl, g
+					}
+				}
+			}
+		})
+	}
+	if site == nil {
+		c.Fail(rule, "tScreen:close(quit)", "-", "the quit channel is never closed")
+		return
+	}
+	bad := ""
+	for _, r := range returnsOf(host) {
+		if !instrDominates(site, r) {
+			bad += "a return at " + p.pos(r.Pos()) + " is reachable without closing quit; "
+		}
+	}
+	c.Check(bad == "", rule, "tScreen:close(quit):unconditional", p.pos(site.Pos()), "close(t.quit) dominates every return of "+host.Name()+" "+bad)
 }
